@@ -41,8 +41,8 @@ def cfg_text(flavors, modes, k, props=True):
          % (", ".join('"%s"' % f for f in flavors), ", ".join('"%s"' % m for m in modes),
             k["MaxMsgs"], k["MaxLen"], k["MaxRx"], k["MaxChunks"]))
     if props:
-        s += ("INVARIANT Conservation\nINVARIANT WlogEqualsWire\nINVARIANT RxInOrder\nINVARIANT NoEmptyResidue\n"
-              "INVARIANT NoTxBeforeConnect\nPROPERTY CutoffStops\n")
+        s += ("INVARIANT Conservation\nINVARIANT WlogEqualsWire\nINVARIANT RxInOrder\n"
+              "INVARIANT NoTxBeforeConnect\nPROPERTY CutoffStops\nPROPERTY NoEmptyResidue\n")
     return s
 
 
@@ -327,7 +327,7 @@ def _random_trace(rng, ad, flavor, nsteps, allow_cut):
                 act["h"] = "na"
         elif p < 0.30:
             name = "Queue"
-            n = rng.randint(1, 6)
+            n = rng.randint(1, 6) if rng.random() < 0.92 else 0        # now and then a zero length message
             act["m"] = tuple(rng.randint(1, MAXB) for _ in range(n))
             if ad.pool and rng.random() < 0.25:
                 act["m"] = dec(rng.choice(sorted(ad.pool)))      # the caller sends a frame it kept once more
@@ -426,7 +426,7 @@ def _jres(res):
 def trace_cfg():
     return cfg_text(FLAVORS, ["both"], {"MaxMsgs": 0, "MaxLen": 0, "MaxRx": 0, "MaxChunks": 0}, props=False).replace(
         "SPECIFICATION Spec", "SPECIFICATION TraceSpec") + (
-        "CONSTRAINT TraceOK\nINVARIANT Conservation\nINVARIANT WlogEqualsWire\nINVARIANT RxInOrder\nINVARIANT NoEmptyResidue\n"
+        "CONSTRAINT TraceOK\nINVARIANT Conservation\nINVARIANT WlogEqualsWire\nINVARIANT RxInOrder\n"
         "INVARIANT NoTxBeforeConnect\nCHECK_DEADLOCK FALSE\n")
 
 
